@@ -22,7 +22,8 @@ def run(ctx):
              "g5.cfg": CFG % (5, "FALSE", "AllActs", "Emit", ""),
              "g6u.cfg": CFG % (6, "FALSE", "AllActs", "EmitUnsafe", ""),
              "focus.cfg": CFG % (8, "FALSE", "FocusActs", "EmitGone", ""),
-             "cache.cfg": CFG % (5 if q else 6, "FALSE", "CacheActs", "EmitCache", "")}
+             "cache.cfg": CFG % (5 if q else 6, "FALSE", "CacheActs", "EmitCache", ""),
+             "global.cfg": CFG % (6 if q else 7, "FALSE", "GlobalActs", "EmitGlobal", "")}
     ctx.tlc("Lifecycle", "demanded.cfg", extra_files=files, tag="design:demanded-keep-alive-edges", timeout=3000)
     r = ctx.tlc("Lifecycle", "ascoded.cfg", extra_files=files, expect_ok=False, tag="design:edges-as-coded")
     if r["violation"]:
@@ -47,7 +48,9 @@ def run(ctx):
         if q:
             cache = rnd.sample(cache, min(len(cache), 150))
         ctx.extra["cache_close_histories"] = len(cache)
-        beh = beh + focus + cache
+        glob = ctx.tlc("Lifecycle", "global.cfg", extra_files=files, design=False, tag="gen:reference-held-only-through-an-imported-global")["emitted"]
+        ctx.extra["imported_global_histories"] = len(glob)
+        beh = beh + focus + cache + glob
         ctx.extra["histories"] = {"depth5_enumerated": n5, "model_unsafe_depth6": len(unsafe), "replayed": len(beh) + len(unsafe)}
         beh = beh + unsafe
         for k, b in enumerate(beh):
